@@ -519,3 +519,25 @@ func vInitialValuesComputed() (int, []string) {
 
 //@ bounded vInitialValuesComputed every property with a computing function that is not listed in InitialNotComputed: an initial keyword does not compute to a number, an initial colour computes to itself (exhaustive over the property table)
 //@   props C04
+
+// CSS 2.1 §10.8.1 vertical-align: the keywords that depend on the line are kept; super / sub raise / lower
+// the box by half an em (as Pango does); a percentage refers to the line height of the element itself.
+//@ func verticalAlign
+//@   props C04
+//@   modifies anything
+//@   requires computer != nil && typeIs(_value, pr.DimOrS)
+//@   unclaimed call-*-pre* "validated values"
+//@   let v = _value.(pr.DimOrS)
+//@   let out = result.(pr.DimOrS)
+//@   ensures typeIs(result, pr.DimOrS)
+//@   ensures[keywords] in(v.S, "baseline", "middle", "text-top", "text-bottom", "top", "bottom") ==> out.S == v.S && out.Value == 0
+//@   ensures[super] v.S == "super" ==> out.S == "" && out.Unit == pr.Scalar && out.Value == old(computer.GetFontSize().Value) * 0.5
+//@   ensures[sub] v.S == "sub" ==> out.S == "" && out.Unit == pr.Scalar && out.Value == old(computer.GetFontSize().Value) * -0.5
+
+// word-spacing: normal computes to 0
+//@ func wordSpacing
+//@   props C04
+//@   modifies anything
+//@   requires typeIs(_value, pr.DimOrS)
+//@   unclaimed call-*-pre* "validated values"
+//@   ensures[normal-is-zero] _value.(pr.DimOrS).S == "normal" ==> typeIs(result, pr.DimOrS) && result.(pr.DimOrS).S == "" && result.(pr.DimOrS).Value == 0
